@@ -187,22 +187,99 @@ example :
     (.cons (.of_eq (by decide) rfl rfl) (.cons (.lb 0 rfl rfl (by decide) (by decide))
     (.cons (.of_eq (by decide) rfl rfl) (.cons (.of_eq (by decide) rfl rfl) .nil)))))))
 
-/-! ### C13.layout_tokens — comments and white space raw tokens are insignificant -/
+/-! ### C13.layout_tokens — comments and white space raw tokens are insignificant (token level, across line breaks) -/
 
-/-- The full token-level sentence: in a raw token list of the shape the lexer produces, inserting (or removing) one
-    WhiteSpace or Comment raw token such that the list keeps that shape does not change what `_rebuild ∘ post_filter`
-    delivers (up to source maps). Not proved in general (the post filter is a four-pass state machine over neighbouring
-    tokens); checked on the real code by the search (token-level insertions and the character-level rewrites). -/
+/-- both generated definitions satisfy every side condition of the layout theorems: `wf`, the character-level conditions
+    (comments end at the newline, openers and combined symbols are blank-free, white space is in no other alphabet), the
+    analyse order starts white space / comment, the shipped post filter list, and the regex post filter needs a
+    character that is not white space (the shipped `[ \t\f]*\[ \t\f]*\r?\n` needs a literal `[`) -/
+theorem pyDef_layoutReady : layoutReady pyDef :=
+  ⟨by decide +kernel, by decide +kernel, by decide +kernel, ⟨_, rfl⟩, by decide +kernel⟩
+
+theorem gramDef_layoutReady : layoutReady gramDef :=
+  ⟨by decide +kernel, by decide +kernel, by decide +kernel, ⟨_, rfl⟩, by decide +kernel⟩
+
+/-- **`post_filter` in closed form.** On a raw token list without two adjacent line break tokens whose line break tokens
+    are non-empty white space (`filterable`; both hold for everything the lexer returns, `raw_filterable`),
+    `post_filter` = `norm`: drop comments and white space, join line breaks that were separated only by them (left to right,
+    `Token.joined`), drop a leading and a trailing line break. The side conditions are exact: the regex pass is the
+    identity because it needs a non-white-space character (so backslash line continuation is *not* handled), the
+    first/last pass only trims because no two line breaks are adjacent; bracket depth plays no role in `post_filter`
+    (`_rebuild` drops line breaks inside brackets). -/
+theorem post_filter_norm (d : TokenDef) (hd : ShippedFilters d) (hb : regexBlind d = true) (ts : List Token)
+    (h : filterable d ts) : postFilter d ts = norm ts :=
+  postFilter_norm hd hb h
+
+/-- what the lexer returns satisfies these side conditions, and its line break tokens contain a newline -/
+theorem raw_filterable (d : TokenDef) (hw : wf d = true) (src : Str) (toks : List Token) (h : parseImpl d src = .ok toks) :
+    filterable d toks ∧ ∀ t ∈ toks, lbNL t :=
+  parseImpl_shape hw h
+
+/-- non-vacuity: `a⏎⇥# c⏎⇥⇥⏎b # d⏎` lexes to a filterable list with a comment between two line breaks; the closed form
+    merges them and trims the trailing one -/
+example :
+    let src : Str := ['a','\n','\t','#',' ','c','\n','\t','\t','\n','b',' ','#',' ','d','\n']
+    (match parseImpl pyDef src with
+      | .ok toks => decide (noAdj toks = true ∧ toks.length = 8 ∧ postFilter pyDef toks = norm toks ∧
+          (norm toks).map simplify = [(T.name, ['a']), (T.lineBreak, ['\n','\t','\n','\t','\t','\n']), (T.name, ['b'])])
+      | .error _ => false) = true := by
+  decide +kernel
+
+/-- **Layout at the token level, in full.** Two filterable raw token lists whose `norm` agree up to the last-line width of
+    their line breaks give the same `_rebuild ∘ post_filter` result up to source maps. This covers inserting / removing any
+    number of Comment and WhiteSpace raw tokens anywhere (`layout_tokens_sig`), a comment between two line breaks (merged
+    line break), comment-only lines, trailing spaces before a line break, and replacing a line break by another with the
+    same last-line width (`layout_linebreak`). -/
+theorem layout_tokens_norm (d : TokenDef) (hd : ShippedFilters d) (hb : regexBlind d = true) (ts ts' : List Token)
+    (h : filterable d ts) (h' : filterable d ts') (hn : AllRel LBsame (norm ts) (norm ts')) :
+    (rebuild (postFilter d ts ++ [Token.mkEOF])).map (List.map simplify)
+      = (rebuild (postFilter d ts' ++ [Token.mkEOF])).map (List.map simplify) := by
+  rw [postFilter_norm hd hb h, postFilter_norm hd hb h']
+  exact rebuild_LBsame hn
+
+/-- same significant tokens (comments / white space inserted or removed anywhere) ⇒ same `post_filter` output, exactly -/
+theorem layout_tokens_sig (d : TokenDef) (hd : ShippedFilters d) (hb : regexBlind d = true) (ts ts' : List Token)
+    (h : filterable d ts) (h' : filterable d ts') (hsig : significant ts = significant ts') :
+    postFilter d ts = postFilter d ts' := by
+  rw [postFilter_norm hd hb h, postFilter_norm hd hb h']
+  unfold norm; rw [hsig]
+
+/-- line breaks replaced by line breaks of the same last-line width (each containing a newline) ⇒ same result up to source maps -/
+theorem layout_linebreak (d : TokenDef) (hd : ShippedFilters d) (hb : regexBlind d = true) (ts ts' : List Token)
+    (h : filterable d ts) (h' : filterable d ts') (hrel : AllRel LBsame ts ts')
+    (n : ∀ t ∈ ts, lbNL t) (n' : ∀ t ∈ ts', lbNL t) :
+    (rebuild (postFilter d ts ++ [Token.mkEOF])).map (List.map simplify)
+      = (rebuild (postFilter d ts' ++ [Token.mkEOF])).map (List.map simplify) :=
+  layout_tokens_norm d hd hb ts ts' h h' (norm_rel hrel n n')
+
+/-- the sentence stated in the previous round, now a theorem: in a lexer-shaped raw token list, inserting or removing one
+    WhiteSpace or Comment token (keeping the shape) does not change `_rebuild ∘ post_filter` -/
 def layout_tokens_statement : Prop :=
   ∀ (xs ys : List Token) (w : Token), (w.type = T.whiteSpace ∨ w.type = T.comment) →
     lexShaped pyDef (xs ++ w :: ys) = true → lexShaped pyDef (xs ++ ys) = true →
     (rebuild (postFilter pyDef (xs ++ w :: ys) ++ [Token.mkEOF])).map (List.map simplify)
       = (rebuild (postFilter pyDef (xs ++ ys) ++ [Token.mkEOF])).map (List.map simplify)
 
-/-- Proved part: within one logical line (no line break token) `post_filter` keeps exactly the significant tokens, so any
-    two raw token lists with the same significant tokens — however many comments and white space tokens are inserted or
-    removed, anywhere — give the same `post_filter` output, hence the same `_rebuild` output. For every definition with
-    the shipped post filter list. -/
+theorem layout_tokens : layout_tokens_statement := by
+  intro xs ys w hw h1 h2
+  have hsig : significant (xs ++ w :: ys) = significant (xs ++ ys) := by
+    rw [significant_append, significant_cons_drop (hw.symm), ← significant_append]
+  rw [layout_tokens_sig pyDef pyDef_layoutReady.2.2.2.1 pyDef_layoutReady.2.2.2.2 _ _
+    (lexShaped_filterable _ h1) (lexShaped_filterable _ h2) hsig]
+
+/-- non-vacuity of the merged-line-break case: `x ⏎␣␣ #c ⏎ y` against `x ⏎ y` (different line break strings, same last-line
+    width 0): both filterable, `norm` related, and `_rebuild ∘ post_filter` agree -/
+example :
+    let nm (c : Char) : Token := ⟨T.name, [c], SourceMap.empty⟩
+    let lb (s : Str) : Token := ⟨T.lineBreak, s, SourceMap.empty⟩
+    let ts := [nm 'x', lb ['\n',' ',' '], ⟨T.comment, ['#','c'], SourceMap.empty⟩, lb ['\n'], nm 'y']
+    let ts' := [nm 'x', lb [' ','\n'], nm 'y']
+    (noAdj ts && noAdj ts' && decide ((norm ts).map (fun t => (t.type, lastLineLen t.string)) = (norm ts').map (fun t => (t.type, lastLineLen t.string))) &&
+      decide (((rebuild (postFilter pyDef ts ++ [Token.mkEOF])).map (List.map simplify)).toOption
+        = ((rebuild (postFilter pyDef ts' ++ [Token.mkEOF])).map (List.map simplify)).toOption)) = true := by
+  decide +kernel
+
+/-- Proved earlier, kept: within one logical line `post_filter` keeps exactly the significant tokens (no shape condition). -/
 theorem layout_tokens_partial (d : TokenDef) (hd : ShippedFilters d) (ts ts' : List Token)
     (h : ∀ t ∈ ts, t.type ≠ T.lineBreak) (h' : ∀ t ∈ ts', t.type ≠ T.lineBreak)
     (hsig : significant ts = significant ts') :
@@ -211,14 +288,130 @@ theorem layout_tokens_partial (d : TokenDef) (hd : ShippedFilters d) (ts ts' : L
   rw [postFilter_noLB hd h, postFilter_noLB hd h', hsig]
   exact ⟨rfl, rfl⟩
 
-/-- non-vacuity: `a = b` with and without white space and a trailing comment -/
+/-! ### C13.layout_chars — the character level -/
+
+/-- **The lexer is a left-to-right scanner.** `parse_impl` (up to source maps) of a non-empty text is its first token
+    followed by `parse_impl` of what is left; nothing depends on the text already consumed. -/
+theorem lex_local (d : TokenDef) (hw : wf d = true) (s : Str) (hne : s ≠ []) :
+    lexS d s = match Lexer.step d s with
+      | .error e => .error e
+      | .ok (e, t) => (lexS d (s.drop e)).map (fun rest => simplify t :: rest) :=
+  lexS_unfold hw s hne
+
+/-- **The first token looks ahead only through blank-free patterns.** If `x` is the first token of `x ++ r`, it is the first
+    token of `x ++ r'` too (same kind and string) when (1) no opener / combined symbol newly matches at the start
+    (`LookOK`; automatic when `r'` continues, after a common part, with a white space character or ends: `Compat.lookOK`),
+    (2) the character after the token keeps its role for the dispatched kind (`HeadOK`: run tokens still end there, a
+    comment still meets a newline or the end, a minus sign is still followed by white space or not), and (3) a string
+    literal is terminated (`quoteClosed`; an unterminated one would be re-read when a closing quote appears later). -/
+theorem first_token_stable (d : TokenDef) (hw : wf d = true) (hwl : wfLayout d = true) (x r r' : Str) (hx : x ≠ [])
+    (dom : Nat) (t : Token) (hd : analyzeDomain d (x ++ r) 0 = .ok dom) (hp : parser d dom (x ++ r) 0 = .ok (x.length, t))
+    (hl : LookOK d (x ++ r) (x ++ r')) (hh : HeadOK d dom t r r') (hq : dom = Dom.quote → quoteClosed d (x ++ r) = true) :
+    analyzeDomain d (x ++ r') 0 = .ok dom ∧ viewR 0 (parser d dom (x ++ r') 0) = .ok (x.length, t.type, t.string) :=
+  step_stable hw hwl x r r' hx hd hp hl hh hq
+
+/-- **Prefix congruence.** Whole tokens `a` in front (each string literal terminated, the last one tolerating the new
+    continuation) are lexed identically when the rest `r` is replaced by a compatible `r'`. -/
+theorem lex_prefix (d : TokenDef) (hw : wf d = true) (hwl : wfLayout d = true) (r r' a : Str) (ta : List (Nat × Str))
+    (hc : Compat d r r') (hp : TokPrefix d r r' a ta) :
+    lexS d (a ++ r) = (lexS d r).map (fun rest => ta ++ rest) ∧ lexS d (a ++ r') = (lexS d r').map (fun rest => ta ++ rest) :=
+  lexS_prefix hw hwl hc hp
+
+/-- **Blanks between tokens, trailing blanks, blank lines — end to end.** `a` = whole tokens, then a (possibly empty) white
+    space run `run`, then `r1` (not starting with white space). Inserting white space `w` before the run — blanks without
+    newline anywhere (between two tokens, before a line end), or anything including newlines when `run` already
+    contains a newline (blank lines) — leaves `Tokenizer.parse` unchanged up to source maps. The premise `TokPrefix`
+    demands of the last token of `a` that it tolerates a white space continuation: it is not itself white space or a
+    comment, and if it is a minus sign it is already followed by white space or the end (the property's exception). -/
+theorem layout_chars_blank (d : TokenDef) (hr : layoutReady d) (a run r1 w : Str) (ta L1 : List (Nat × Str))
+    (hwne : w ≠ []) (hwall : ∀ c ∈ w, d.whiteSpace.contains c = true) (hwnl : Str.count '\n' w = 0 ∨ Str.count '\n' run ≠ 0)
+    (hrun : ∀ c ∈ run, d.whiteSpace.contains c = true) (hr1 : headIn d.whiteSpace r1 = false)
+    (hpre : TokPrefix d (run ++ r1) (w ++ (run ++ r1)) a ta) (hL : lexS d r1 = .ok L1) :
+    (tokenize d (a ++ (run ++ r1))).map (List.map simplify) =
+      (tokenize d (a ++ (w ++ (run ++ r1)))).map (List.map simplify) :=
+  layout_blank hr a run r1 w hwne hwall hwnl hrun hr1 hpre hL
+
+/-- **Trailing comment — end to end.** At a line end (`r` empty or starting with a newline) inserting blanks and a comment. -/
+theorem layout_chars_comment (d : TokenDef) (hr : layoutReady d) (a w body r : Str) (p : Str × Str) (ta L : List (Nat × Str))
+    (hwne : w ≠ []) (hwall : ∀ c ∈ w, d.whiteSpace.contains c = true) (hwnl : Str.count '\n' w = 0)
+    (hf : firstOpen d.comment (p.1 ++ body ++ r) 0 = .ok p) (hb : '\n' ∉ body) (hnl : nlOrEnd r = true)
+    (hpre : TokPrefix d r (w ++ (p.1 ++ body ++ r)) a ta) (hL : lexS d r = .ok L) :
+    (tokenize d (a ++ r)).map (List.map simplify) =
+      (tokenize d (a ++ (w ++ (p.1 ++ body ++ r)))).map (List.map simplify) :=
+  layout_comment hr a w body r p hwne hwall hwnl hf hb hnl hpre hL
+
+/-- **Comment-only line — end to end.** Before a line end, inserting a new line with any indentation and a comment (the
+    two line breaks around the comment are merged by `post_filter`; the merged one keeps the last-line width). -/
+theorem layout_chars_comment_line (d : TokenDef) (hr : layoutReady d) (a ind body nlrun r1 : Str) (p : Str × Str)
+    (ta L1 : List (Nat × Str))
+    (hind : ∀ c ∈ ind, d.whiteSpace.contains c = true) (hnlws : d.whiteSpace.contains '\n' = true)
+    (hrun : ∀ c ∈ nlrun, d.whiteSpace.contains c = true) (hrnl : nlOrEnd nlrun = true) (hrne : nlrun ≠ [])
+    (hr1 : headIn d.whiteSpace r1 = false)
+    (hf : firstOpen d.comment (p.1 ++ body ++ (nlrun ++ r1)) 0 = .ok p) (hb : '\n' ∉ body)
+    (hpre : TokPrefix d (nlrun ++ r1) (('\n' :: ind) ++ (p.1 ++ body ++ (nlrun ++ r1))) a ta) (hL : lexS d r1 = .ok L1) :
+    (tokenize d (a ++ (nlrun ++ r1))).map (List.map simplify) =
+      (tokenize d (a ++ (('\n' :: ind) ++ (p.1 ++ body ++ (nlrun ++ r1))))).map (List.map simplify) :=
+  layout_comment_line hr a ind body nlrun r1 p hind hnlws hrun hrnl hrne hr1 hf hb hpre hL
+
+/-- **Tabs vs any consistent space width — end to end.** `Reindent d u u' s s' L L'`: `s'` is `s` with every indentation
+    (the blanks between the last newline of a white space run and the code) changed from `m * u` to `m * u'` characters,
+    all other tokens kept (string literals terminated). Then `Tokenizer.parse` agrees up to source maps. -/
+theorem width_end_to_end (d : TokenDef) (hr : layoutReady d) (u u' : Nat) (hu : 0 < u) (hu' : 0 < u') (s s' : Str)
+    (L L' : List (Nat × Str)) (h : Reindent d u u' s s' L L') :
+    (tokenize d s).map (List.map simplify) = (tokenize d s').map (List.map simplify) :=
+  width_chars hr hu hu' h
+
+/-- non-vacuity of `layout_chars_blank`: `a=1` and `a =1` -/
+example : (tokenize pyDef ['a','=','1']).map (List.map simplify) = (tokenize pyDef ['a',' ','=','1']).map (List.map simplify) := by
+  have pre : TokPrefix pyDef ([] ++ ['=','1']) ([' '] ++ ([] ++ ['=','1'])) (['a'] ++ []) [simplify ⟨T.name, ['a'], mkMap ['a','=','1'] 0 1⟩] :=
+    TokPrefix.cons (dom := Dom.identifier) (by simp) rfl rfl (fun h => absurd h (by decide))
+      (fun _ => ⟨fun h => absurd h (by decide), fun h => absurd h (by decide), fun _ h => absurd h (by decide),
+        fun h => absurd h (by decide), fun h => absurd h (by decide)⟩) TokPrefix.nil
+  exact layout_chars_blank pyDef pyDef_layoutReady ['a'] [] ['=','1'] [' '] _ [(94, ['=']), (48, ['1'])]
+    (by simp) (by decide) (Or.inl rfl) (by simp) rfl pre rfl
+
+/-- non-vacuity of `layout_chars_comment_line`: `a⏎b` and `a⏎␣␣# c⏎b` -/
+example : (tokenize pyDef ['a','\n','b']).map (List.map simplify)
+    = (tokenize pyDef ['a','\n',' ',' ','#',' ','c','\n','b']).map (List.map simplify) := by
+  have pre : TokPrefix pyDef (['\n'] ++ ['b']) (('\n' :: [' ',' ']) ++ ((['#'], ['\n']).1 ++ [' ','c'] ++ (['\n'] ++ ['b']))) (['a'] ++ [])
+      [simplify ⟨T.name, ['a'], mkMap ['a','\n','b'] 0 1⟩] :=
+    TokPrefix.cons (dom := Dom.identifier) (by simp) rfl rfl (fun h => absurd h (by decide))
+      (fun _ => ⟨fun h => absurd h (by decide), fun h => absurd h (by decide), fun _ h => absurd h (by decide),
+        fun h => absurd h (by decide), fun h => absurd h (by decide)⟩) TokPrefix.nil
+  exact layout_chars_comment_line pyDef pyDef_layoutReady ['a'] [' ',' '] [' ','c'] ['\n'] ['b'] (['#'], ['\n']) _ [(T.name, ['b'])]
+    (by decide) rfl (by decide) rfl (by simp) rfl rfl (by decide) pre rfl
+
+/-- non-vacuity of `width_end_to_end`: `a:⏎⇥b` with a tab and with four spaces -/
+example : (tokenize pyDef ['a',':','\n','\t','b']).map (List.map simplify)
+    = (tokenize pyDef ['a',':','\n',' ',' ',' ',' ','b']).map (List.map simplify) := by
+  have h3 : Reindent pyDef 1 4 (['b'] ++ []) (['b'] ++ []) _ _ :=
+    Reindent.tok (dom := Dom.identifier) (t := ⟨T.name, ['b'], mkMap ['b'] 0 1⟩) (by simp) rfl rfl (fun h => absurd h (by decide)) (by decide) Reindent.nil
+  have h2 : Reindent pyDef 1 4 ([] ++ '\n' :: ['\t'] ++ (['b'] ++ [])) ([] ++ '\n' :: [' ',' ',' ',' '] ++ (['b'] ++ [])) _ _ :=
+    Reindent.lb (m := 1) (by simp) (by decide) (by decide) rfl (by decide) (by decide) rfl rfl rfl h3
+  have h1 : Reindent pyDef 1 4 ([':'] ++ _) ([':'] ++ _) _ _ :=
+    Reindent.tok (dom := Dom.symbol) (t := ⟨85, [':'], mkMap [':','\n','\t','b'] 0 1⟩) (by simp) rfl rfl (fun h => absurd h (by decide)) (by decide) h2
+  have h0 : Reindent pyDef 1 4 (['a'] ++ _) (['a'] ++ _) _ _ :=
+    Reindent.tok (dom := Dom.identifier) (t := ⟨T.name, ['a'], mkMap ['a',':','\n','\t','b'] 0 1⟩) (by simp) rfl rfl (fun h => absurd h (by decide)) (by decide) h1
+  exact width_end_to_end pyDef pyDef_layoutReady 1 4 (by decide) (by decide) _ _ _ _ h0
+
+
+/-- non-vacuity of `layout_chars_comment`: `a⏎b` and `a # c⏎b` -/
+example : (tokenize pyDef ['a','\n','b']).map (List.map simplify)
+    = (tokenize pyDef ['a',' ','#',' ','c','\n','b']).map (List.map simplify) := by
+  have pre : TokPrefix pyDef ['\n','b'] ([' '] ++ ((['#'], ['\n']).1 ++ [' ','c'] ++ ['\n','b'])) (['a'] ++ [])
+      [simplify ⟨T.name, ['a'], mkMap ['a','\n','b'] 0 1⟩] :=
+    TokPrefix.cons (dom := Dom.identifier) (by simp) rfl rfl (fun h => absurd h (by decide))
+      (fun _ => ⟨fun h => absurd h (by decide), fun h => absurd h (by decide), fun _ h => absurd h (by decide),
+        fun h => absurd h (by decide), fun h => absurd h (by decide)⟩) TokPrefix.nil
+  exact layout_chars_comment pyDef pyDef_layoutReady ['a'] [' '] [' ','c'] ['\n','b'] (['#'], ['\n']) _ [(T.lineBreak, ['\n']), (T.name, ['b'])]
+    (by simp) (by decide) rfl rfl (by decide) rfl pre rfl
+
+/-- non-vacuity of `lex_local` / `first_token_stable` / `lex_prefix`: the first token of `ab+1` is `ab`, also in front of
+    `␣+1`; the hypotheses of `lex_prefix` are the `TokPrefix` facts constructed in the examples above -/
 example :
-    let nm (c : Char) : Token := ⟨T.name, [c], SourceMap.empty⟩
-    let ws : Token := ⟨T.whiteSpace, [' '], SourceMap.empty⟩
-    let ts := [nm 'a', ws, ⟨94, ['='], SourceMap.empty⟩, ws, nm 'b', ws, ⟨T.comment, ['#', 'c'], SourceMap.empty⟩]
-    let ts' := [nm 'a', ⟨94, ['='], SourceMap.empty⟩, nm 'b']
-    (decide (significant ts = significant ts') && decide (postFilter pyDef ts = ts') &&
-      lexShaped pyDef ts && lexShaped pyDef ts') = true := by
+    (match Lexer.step pyDef ['a','b','+','1'], Lexer.step pyDef ['a','b',' ','+','1'] with
+      | .ok (e, t), .ok (e', t') => decide (e = 2 ∧ e' = 2 ∧ simplify t = simplify t' ∧ t.string = ['a','b'])
+      | _, _ => false) = true := by
   decide +kernel
 
 end Tranp.C13
